@@ -1,2 +1,3 @@
 import HvProps.C05
 import HvProps.C08
+import HvProps.C04
